@@ -30,7 +30,8 @@ def make_file(rng, lang, salt):
 def rand_tree(rng):
     files, counted, dirs = {}, [], []
     subdirs = []
-    pool = ["app", "lib", "core", "docs", "v1.2", "x-y"] + IGNORED
+    # hidden directories that are no VCS / IDE / report directory have a row like any other
+    pool = ["app", "lib", "core", "docs", "v1.2", "x-y", ".github", ".ci"] + IGNORED
     for d in rng.sample(pool, rng.choice([1, 2, 3, 5, 6])):
         subdirs.append(d)
         dirs.append(d)
